@@ -57,6 +57,13 @@ class Obligations:
             return self.ok(rule, func, construct, detail_ok, where)
         return self.bad(rule, func, construct, detail_bad, where)
 
+    def soft(self, cond, rule, func, construct, detail_bad='', detail_ok='', where=''):
+        """pattern-based obligation: a match discharges it, a mismatch is only `undecided` - the pattern is one way of
+        writing the construct, so its absence is no proof of a defect (never an alarm from a frozen fragment)"""
+        if cond:
+            return self.ok(rule, func, construct, detail_ok, where)
+        return self.unk(rule, func, construct, 'pattern not recognised: ' + detail_bad, where)
+
     def count(self, verdict):
         return sum(1 for o in self.items if o.verdict == verdict)
 
